@@ -417,10 +417,11 @@ def run(ctx):
         it4 = Interp(p, opaque={WRAPDIFF: "wrapdiff", GRIDF: "enclose"})
         if xperiod is not None:
             it4.nonnull.add(xper)
-        r = T.to_term(it4.call_function(fip, [xp, fp, x, xperiod, fper, fdis, P("left"), P("right")], {}, None))
+        # rows of the (2, n) bracket table may be taken as enc[0, :] or by unpacking `lower, upper = enc`: one spelling here
+        r = T.strip_trailing_slices(T.to_term(it4.call_function(fip, [xp, fp, x, xperiod, fper, fdis, P("left"), P("right")], {}, None)))
         enc = op("enclose", xp, x, False, xperiod)
-        e0 = op("item", enc, sp.Tuple(sp.Integer(0), op("slc", NONE_T, NONE_T, NONE_T)))
-        e1 = op("item", enc, sp.Tuple(sp.Integer(1), op("slc", NONE_T, NONE_T, NONE_T)))
+        e0 = op("item", enc, sp.Integer(0))
+        e1 = op("item", enc, sp.Integer(1))
         dfp = op("item", fp, e1) - op("item", fp, e0)
         wr = [w for w in T.find_ops(r, "wrapdiff") if sp.expand(w.args[0] - dfp) == 0]
         ctx.expect(bool(wr) and all(w.args[1] == fper and w.args[2] == NONE_T for w in wr), "R14.2",
